@@ -273,3 +273,10 @@ fn c06_process_pending__1() {
 fn c06_process_pending__3() {
     h_process_pending(3);
 }
+
+#[kani::proof]
+#[kani::unwind(7)]
+#[kani::stub(alloc::fmt::format, fmt_stub)]
+fn c06_process_pending__2() {
+    h_process_pending(2);
+}
